@@ -67,6 +67,8 @@ type Fx struct {
 	UsedSpec map[string]bool
 	LemmasUsed map[string]bool
 	nvInclusive bool
+	exitSuffix string
+	exitPos    token.Pos
 	KeyFacts map[*Term]bool // assumptions that came from asserted proof steps
 	stepsActive bool
 	Trivial  int // contract obligations discharged by the term simplifier alone
@@ -83,6 +85,7 @@ type Fx struct {
 type retState struct {
 	St  *State
 	Res Val
+	Pos token.Pos
 }
 
 type execErr struct{ msg string }
@@ -121,6 +124,13 @@ func (fx *Fx) oblige(st *State, kind, site string, goal *Term, pos token.Pos) {
 	if st.PC.IsFalse() {
 		return
 	}
+	// a conjunction is checked conjunct by conjunct: smaller queries, and a failure names the part that fails
+	if goal.Op == "and" && len(goal.Args) <= 24 && (kind == "pre" || kind == "post" || kind == "inv-init" || kind == "inv-step") {
+		for i, c := range goal.Args {
+			fx.oblige(st, kind, fmt.Sprintf("%s.%d", site, i+1), c, pos)
+		}
+		return
+	}
 	if goal.IsTrue() {
 		if kind == "post" || kind == "inv-init" || kind == "inv-step" || kind == "frame" || kind == "variant" {
 			fx.Trivial++
@@ -132,6 +142,9 @@ func (fx *Fx) oblige(st *State, kind, site string, goal *Term, pos token.Pos) {
 		return
 	}
 	fn := st.Top().Fn
+	if fx.exitSuffix != "" {
+		site += fx.exitSuffix
+	}
 	base := fx.Name + "#" + kind + "#" + site
 	if fn != fx.Fn {
 		base = fx.Name + "#" + kind + "#" + fnName(fn) + ":" + site
@@ -142,6 +155,9 @@ func (fx *Fx) oblige(st *State, kind, site string, goal *Term, pos token.Pos) {
 		name = fmt.Sprintf("%s#%d", base, n)
 	}
 	ob := &Obligation{Name: name, Kind: kind, Func: fx.Name, PC: st.PC, Goal: goal, Pos: posStr(fn, pos), Sweep: fx.Sweep}
+	if fx.exitSuffix != "" && fx.exitPos.IsValid() {
+		ob.Pos = "return at " + posStr(fn, fx.exitPos)
+	}
 	ob.Assume = fx.Assume[:len(fx.Assume):len(fx.Assume)]
 	ob.Inputs = fx.Params
 	ob.Fx = fx
@@ -554,7 +570,7 @@ func (fx *Fx) doReturn(st *State, r *ssa.Return) {
 			res.L = append(res.L, fx.get(st, x).L...)
 		}
 	}
-	fx.Returns = append(fx.Returns, &retState{St: st, Res: res})
+	fx.Returns = append(fx.Returns, &retState{St: st, Res: res, Pos: r.Pos()})
 }
 
 // ---------- instructions
